@@ -574,6 +574,48 @@ theorem bin_chunk_roundtrip (r12 : Bool) (code : Nat) (ch rest : List Nat)
     simp only [this, ← hl']
     simp
 
+/-- tags the binary format can frame and whose values fit their class (binary chunks excluded: they
+    are covered by `bin_chunk_roundtrip`) -/
+def TagOK (r12 : Bool) (t : BTag) : Prop :=
+  t.code < 65536 ∧ (r12 = true → t.code < 255 ∨ 1000 ≤ t.code) ∧ ValWF t
+
+private theorem encTag_nonempty (r12 : Bool) (t : BTag) (bs : List Nat) (h : TagOK r12 t)
+    (he : encTag r12 t = .ok bs) : bs ≠ [] := by
+  obtain ⟨bs', he', hd⟩ := bin_tag_roundtrip r12 t [] h.1 h.2.1 h.2.2
+  rw [he] at he'
+  cases he'
+  intro hnil
+  rw [hnil] at hd
+  simp [decTag, decCode, bind, Except.bind] at hd
+
+/-- a whole tag list written by the binary writer is read back tag for tag -/
+theorem bin_file_roundtrip (r12 : Bool) (ts : List BTag) (h : ∀ t ∈ ts, TagOK r12 t) :
+    ∃ bs, encAll r12 ts = .ok bs ∧ ∀ fuel, ts.length < fuel → decAll r12 fuel bs = .ok ts := by
+  induction ts with
+  | nil =>
+    refine ⟨[], rfl, ?_⟩
+    intro fuel hf
+    cases fuel with
+    | zero => omega
+    | succ k => simp [decAll]
+  | cons t r ih =>
+    have ht := h t (by simp)
+    obtain ⟨br, hbr, hdr⟩ := ih (fun x hx => h x (by simp [hx]))
+    obtain ⟨bt, hbt, hdt⟩ := bin_tag_roundtrip r12 t br ht.1 ht.2.1 ht.2.2
+    refine ⟨bt ++ br, by simp [encAll, hbt, hbr, bind, Except.bind], ?_⟩
+    intro fuel hf
+    cases fuel with
+    | zero => omega
+    | succ k =>
+      have hne : bt ≠ [] := encTag_nonempty r12 t bt ht hbt
+      have hne' : (bt ++ br).isEmpty = false := by
+        cases bt with
+        | nil => exact absurd rfl hne
+        | cons a b => rfl
+      simp only [decAll, hne', Bool.false_eq_true, ↓reduceIte, hdt, bind, Except.bind]
+      rw [hdr k (by simp at hf; omega)]
+
+
 /-! ## the hand-written class functions equal the sets and the probed behaviour of the source -/
 
 def asciiCls (c : Nat) : Nat :=
